@@ -3323,7 +3323,9 @@ class SSHConnection(SSHPacketHandler, asyncio.Protocol):
 
             self.logger.info('  Forwarding TCP connection to %s',
                              (dest_host, dest_port))
-        except OSError as exc:
+        except (OSError, ValueError, OverflowError) as exc:
+            # A host name or port which can't even be looked up is
+            # reported as a ValueError, UnicodeError or OverflowError
             raise ChannelOpenError(OPEN_CONNECT_FAILED, str(exc)) from None
 
         if not self._transport:
@@ -3356,7 +3358,7 @@ class SSHConnection(SSHPacketHandler, asyncio.Protocol):
                 await self._loop.create_unix_connection(SSHForwarder, dest_path)
 
             self.logger.info('  Forwarding UNIX connection to %s', dest_path)
-        except OSError as exc:
+        except (OSError, ValueError) as exc:
             raise ChannelOpenError(OPEN_CONNECT_FAILED, str(exc)) from None
 
         if not self._transport:
@@ -6695,7 +6697,7 @@ class SSHServerConnection(SSHConnection):
                 listener = await self.forward_local_port(
                     listen_host, listen_port,
                     listen_host, listen_port, listener)
-        except OSError:
+        except (OSError, ValueError, OverflowError):
             self.logger.debug1('Failed to create TCP listener')
             self._report_global_response(False)
             return
@@ -6847,7 +6849,7 @@ class SSHServerConnection(SSHConnection):
             if listener is True:
                 listener = await self.forward_local_path(listen_path,
                                                          listen_path)
-        except OSError:
+        except (OSError, ValueError):
             self.logger.debug1('Failed to create UNIX listener')
             self._report_global_response(False)
             return
